@@ -672,6 +672,56 @@ func genC12(c *Ctx) {
 	}
 	c12LevelP(c)
 	c12BigPrimes(c)
+	c12Margins(c)
+}
+
+// c12Margins: the only observable of the lazy-accumulation schedule — Parameters.QiOverflowMargin(level)
+// and PiOverflowMargin(level) (the halved values are the windows of MultiplyByDiagMatrixBSGS) — on chains
+// with 40..61-bit primes in Q and up to 62 bits in P, at every level, and without P.
+func c12Margins(c *Ctx) {
+	type chain struct{ q, p []int }
+	chains := []chain{{[]int{54, 45, 45, 45}, []int{56}}, {[]int{60, 40, 58}, []int{61, 60}}, {[]int{40, 40}, nil}}
+	if c.Thorough() {
+		chains = append(chains, chain{[]int{55, 60, 35, 50, 59}, []int{57, 61, 58}}, chain{[]int{30, 31, 32, 33}, []int{34}})
+	}
+	emit := func(rp rlwe.Parameters) {
+		for l := 0; l <= rp.MaxLevel(); l++ {
+			c.Emit("margin "+Vec(rp.Q()[:l+1]), I(rp.QiOverflowMargin(l)))
+		}
+		for l := -1; l <= rp.MaxLevelP(); l++ {
+			if l < 0 {
+				c.Emit("margin -", I(rp.PiOverflowMargin(l)))
+			} else {
+				c.Emit("margin "+Vec(rp.P()[:l+1]), I(rp.PiOverflowMargin(l)))
+			}
+		}
+	}
+	for _, ch := range chains {
+		rp, err := rlwe.NewParametersFromLiteral(rlwe.ParametersLiteral{LogN: 6, LogQ: ch.q, LogP: ch.p, NTTFlag: true})
+		if err != nil {
+			panic(err)
+		}
+		emit(rp)
+	}
+	// explicit primes just below 2^61 (Q) and 2^62 (P): the smallest margins (8 and 4)
+	for _, bits := range [][2]int{{61, 62}, {61, 61}, {60, 62}} {
+		gq := ring.NewNTTFriendlyPrimesGenerator(uint64(bits[0]), 128)
+		qs, err := gq.NextDownstreamPrimes(3)
+		if err != nil {
+			panic(err)
+		}
+		gp := ring.NewNTTFriendlyPrimesGenerator(uint64(bits[1]), 128)
+		ps, err := gp.NextDownstreamPrimes(5)
+		if err != nil {
+			panic(err)
+		}
+		rp, err := rlwe.NewParametersFromLiteral(rlwe.ParametersLiteral{LogN: 6, Q: qs, P: ps[3:], NTTFlag: true})
+		if err != nil {
+			c.Count("margins:chain-rejected")
+			continue
+		}
+		emit(rp)
+	}
 }
 
 // c12LevelP: several auxiliary primes, transformations and Galois keys at every LevelP in 0..max
